@@ -1236,6 +1236,13 @@ func (s *Script) Render() string {
 	for _, a := range all {
 		walk(a)
 	}
+	// function constants denote distinct functions
+	var fnConsts []*Term
+	for _, t := range order {
+		if t.Op == "var" && t.Sort == Fn && (strings.HasPrefix(t.Name, "fn$")) && !bound[t.id] {
+			fnConsts = append(fnConsts, t)
+		}
+	}
 	// recursive spec-function definitions that are actually used (transitively)
 	var usedDefs []*DefFun
 	usedDef := map[string]bool{}
@@ -1389,6 +1396,13 @@ func (s *Script) Render() string {
 		if hi != nil {
 			b.WriteString("(assert (<= " + tb.String() + " " + IntB(hi).String() + "))\n")
 		}
+	}
+	if len(fnConsts) >= 2 {
+		b.WriteString("(assert (distinct")
+		for _, t := range fnConsts {
+			b.WriteString(" " + symName(t.Name))
+		}
+		b.WriteString("))\n")
 	}
 	for _, a := range axioms {
 		b.WriteString("(assert ")
